@@ -270,6 +270,14 @@ func runDB(p *dbProgram, st *stats) (fs []finding) {
 			}
 			d.Write(b)
 			dm = pending
+			if actual := dump(d); !actual.Equal(pending) {
+				name := "db.Batch"
+				if bd != nil {
+					name = "batchdb"
+				}
+				report(i, name+":database-after-write-differs-from-batched-operations", "after Write the database is not the previous contents with the batched Set/Del applied in order", map[string]any{"batchdb_prefix": o.Prefix, "differences": showDiffs(actual.Diff(pending, 4), "db", "model")})
+				dm = actual // resynchronise so that one wrong write is reported once
+			}
 		case "newreader":
 			rd.Close()
 			rd = d.NewReader()
